@@ -78,8 +78,13 @@ pub async fn run_acb_app_to_delta_models(
         load_tx_rates(&mut csv_txs, &mut rate_loader).await?;
 
         let mut txs = Vec::<Tx>::with_capacity(csv_txs.len());
-        for csv_tx in csv_txs {
-            txs.push(Tx::try_from(csv_tx)?)
+        for (i, csv_tx) in csv_txs.into_iter().enumerate() {
+            // Rows start at 1 for the user, and include the header.
+            let row_num = i + 2;
+            let tx = Tx::try_from(csv_tx).map_err(|e| {
+                format!("Error on row {row_num} of {}: {e}", csv_reader.desc())
+            })?;
+            txs.push(tx);
         }
 
         global_read_index += txs.len() as u32;
